@@ -627,6 +627,10 @@ impl Prop for P {
                     }};
                 }
                 backend!(VmFunction, "vm");
+                // four registers: nearly every tape spills, so the gradient
+                // interpreter's Load / Store are exercised (255 registers never spill
+                // on programs of this size)
+                backend!(fidget_core::vm::GenericVmFunction<4>, "vm");
                 backend!(JitFunction, "jit");
                 if nontrivial {
                     cx.ev.nontrivial(case);
